@@ -14,7 +14,8 @@ from vlib.cosched.sched import Abort
 FLAVOURS = ["asyncio", "trio", "threading"]
 CONTEXTS = ["outside", "threading", "asyncio", "trio"]
 OUTCOMES = [("return", "None"), ("return", "0"), ("return", "''"), ("return", "[]"),
-            ("return", "object"), ("raise", "LookupError"), ("raise", "UserError"),
+            ("return", "object"), ("return", "exc-instance"), ("return", "exc-class"),
+            ("raise", "LookupError"), ("raise", "UserError"),
             ("raise", "StopAsyncIteration"), ("raise", "TimeoutError"), ("raise", "UserTimeout"),
             ("raise", "KeyError"), ("raise", "RuntimeError"), ("raise", "TypeError"),
             ("raise", "AttributeError"), ("raise", "cf.CancelledError"),
